@@ -136,7 +136,8 @@ func (ex *Exec) execInstr(b *ssa.BasicBlock, st *State, in ssa.Instruction) {
 		n := ex.val(st, in.Len)
 		ex.safeOblige(st, "make-len", Ge(n, IntLit(0)))
 		ez := vc.zero(in.Type().Underlying().(*types.Slice).Elem())
-		arr := T{fmt.Sprintf("((as const (Array Int %s)) %s)", es, ez.s), ArraySort(SInt, es)}
+		arr := vc.constArray(ez)
+		_ = es
 		ex.regs[in] = mkSlice(ss, arr, n, TFalse)
 	case *ssa.Slice:
 		ex.execSlice(st, in)
